@@ -257,6 +257,11 @@ func checkRoundTrip(c cryptgen.Case) *harness.Fail {
 	if f != nil {
 		return f
 	}
+	// the encrypted intermediate must at least address its own sample data (independent reader); otherwise
+	// whatever the decryptor does with it has this as its root cause
+	if _, err := fragbuild.Read(enc); err != nil {
+		return harness.Failf("C06|encrypted intermediate|data offsets do not resolve to the sample data", "%v", err)
+	}
 	out, f := decryptLikeCLI(enc, c.Key)
 	if f != nil {
 		return f
